@@ -119,10 +119,10 @@ class Parameters:
         self.environment_defs = [
 
         Environ(self, 'figure', args='O', add_pars=False),
-        Environ(self, 'minipage', args='A'),
+        Environ(self, 'minipage', args='OOOA'),
 #       Environ(self, 'table', repl='[Tabelle]', remove=True),
         Environ(self, 'table', args='O', add_pars=False),
-        Environ(self, 'tabular', args='A', add_pars=False),
+        Environ(self, 'tabular', args='OA', add_pars=False),
         Environ(self, 'thebibliography', args='A', add_pars=True),
         Environ(self, 'verbatim', remove=False, add_pars=True),
 
